@@ -50,7 +50,8 @@ CHECKS["C14"] = dict(
     category="model_checking",
     technique="TLC invariant DebugNeutral (debug wrapper is behaviour neutral) + replay of debug/non-debug builds on all witness assignments",
     text="Model and code: debug build and plain build succeed on exactly the same witness assignments, both equal to the source semantics.",
-    note=PROG_NOTE + " Marker-to-call-site resolution is added with the debug-symbol family.", design="5 (C14)")
+    note=PROG_NOTE + " Marker resolution: every marker CMR found in the debug build must resolve to exactly one predicted call site "
+         "(text, kind), every predicted site must have a marker, map_value must reconstruct sample values.", design="5 (C14)")
 
 CHECKS["C04"] = dict(
     category="model_checking",
@@ -77,6 +78,28 @@ CHECKS["C10"] = dict(
     text="Exhaustive (bounded) arrangements of nested blocks, pattern lets, match arms and calls over two names; the value observed at "
          "each probe must be the one lexical scoping prescribes - in the model (scope/path translation) and in the real compiler.",
     note=PROG_NOTE, design="5 (C10)")
+
+CHECKS["C05"] = dict(
+    category="model_checking",
+    technique="TLA+ rule SatisfyOK (nominal witness typing) + reference semantics; TLC-generated witness maps replayed into satisfy / Bit Machine",
+    text="Programs with 0..8 witnesses over classes of layout-equal types; maps exact / extra / missing / re-typed within the layout class / "
+         "other layout / swapped. satisfy must return Err exactly as SatisfyOK says; on Ok the observed verdict must be the one of the "
+         "reference semantics (each witness compared with its own literal, so cross-delivery is visible).",
+    note=PROG_NOTE + " Maps omitting a used witness: only `no panic` is required.", design="5 (C05)")
+CHECKS["C12"] = dict(
+    category="model_checking",
+    technique="TLA+ rules Params/InstantiateOK + invariant SubstEquivalent (instantiation = literal substitution) checked by TLC; replay of parameters(), instantiate and both programs",
+    text="Programs with 0..4 parameters in main / called / never-called functions; parameters() must equal the model's set; argument maps "
+         "exact/extra/missing/re-typed classified by InstantiateOK; instantiated and literally substituted program give the model's "
+         "verdict vector.",
+    note=PROG_NOTE, design="5 (C12)")
+CHECKS["C18"] = dict(
+    category="model_checking",
+    technique="TLA+ pruning model (PruneRun/Skel) with invariants PruneNeutral, EnvCompileCorrect; replay of satisfy_with_env over environments x witnesses",
+    text="Environment-reading programs x 8 lock-time/sequence environments x witness points: satisfy_with_env returns a program iff the "
+         "reference semantics succeeds under env; the program keeps the CMR, decodes and succeeds under env.",
+    note=PROG_NOTE + " The meaning of the lock-time jets is part of the model and is itself validated by the replay on the unchanged tree.",
+    design="5 (C18)")
 
 PENDING = {}
 
